@@ -250,6 +250,15 @@ def instances(tier):
         out.append(Inst(bip_scn, dict(nsub=2, simple=1, nforeign=0, two_hop=False), budget=80))
         # a foreign device at the BBMD on the FAR side of a one-hop (directed broadcast) distribution
         out.append(Inst(bip_scn, dict(nsub=2, simple=0, nforeign=2, two_hop=False, register_at=1), budget=80))
+        # three subnets (two peers per BBMD), and a lone BBMD with nodes and foreign devices
+        out.append(Inst(bip_scn, dict(nsub=3, simple=1, nforeign=1, two_hop=True), budget=120))
+        out.append(Inst(bip_scn, dict(nsub=3, simple=1, nforeign=2, two_hop=False, register_at=2), budget=120))
+        out.append(Inst(bip_scn, dict(nsub=1, simple=2, nforeign=2, two_hop=True), budget=80))
+        for nsub in (1, 2, 3):
+            for two_hop in (True, False):
+                for reg in range(nsub):
+                    out.append(Inst(bip_scn, dict(nsub=nsub, simple=2, nforeign=2, two_hop=two_hop, register_at=reg),
+                                    budget=120, path_timeout=120))
         out.append(Inst(foreign_scn, dict(ttl_max=2, renew=False, action="none"), budget=80, path_timeout=90))
         out.append(Inst(foreign_scn, dict(ttl_max=1, renew=True, action="none"), budget=80, path_timeout=90))
         # a time-to-live that does not divide the grace period: the device's own expiry tracking (TTL + 30) falls
